@@ -19,18 +19,26 @@ InputPool == << <<"i", 2>>, <<"j", 3>>, <<"k", 2>> >>
 BitOf(n) == IF n = "i" THEN 1 ELSE IF n = "j" THEN 2 ELSE 4
 HasBit(mask, n) == ((mask \div BitOf(n)) % 2) = 1
 InsOf(mask) == SelectSeq(InputPool, LAMBDA q : HasBit(mask, q[1]))
+\* patterns 4..7: the support is a single cell at flat offset 6, 7, 10, 5 (when it exists), so
+\* that any mis-decoding of the drawn flat index into the sampled variables leaves the support
 LeafVal(pat, k) ==
   IF pat = 1 /\ k % 3 = 0 THEN NegInf
   ELSE IF pat = 2 /\ k % 2 = 1 THEN NegInf
   ELSE IF pat = 3 /\ k > 1 THEN NegInf
+  ELSE IF pat = 4 /\ k # 7 THEN NegInf
+  ELSE IF pat = 5 /\ k # 8 THEN NegInf
+  ELSE IF pat = 6 /\ k # 11 THEN NegInf
+  ELSE IF pat = 7 /\ k # 6 THEN NegInf
   ELSE MkL(1 + ((k * 3) % 5), 1)
 FTerm(mask, pat) ==
   LET ins == InsOf(mask)  n == SeqProd([k \in 1..Len(ins) |-> ins[k][2]]) IN
   [c |-> "Ten", ins |-> ins, dt |-> 0, sh |-> <<>>, data |-> [k \in 1..n |-> LeafVal(pat, k)]]
 SampleIns(n) == CASE n = 0 -> <<>> [] n = 1 -> << <<"p", BintD(2)>> >> [] n = 2 -> << <<"p", BintD(2)>>, <<"q", BintD(3)>> >>
 Problems ==
-  {p \in [mask : 1..7, pat : 0..3, vars : SUBSET {"i", "j", "k"}, ns : 0..2] :
-     /\ p.vars # {} /\ p.vars \subseteq {InsOf(p.mask)[k][1] : k \in 1..Len(InsOf(p.mask))}}
+  {p \in [mask : 1..7, pat : 0..7, vars : SUBSET {"i", "j", "k"}, ns : 0..2] :
+     /\ p.vars # {} /\ p.vars \subseteq {InsOf(p.mask)[k][1] : k \in 1..Len(InsOf(p.mask))}
+     \* single-cell patterns only where the cell exists (otherwise the tensor is all -inf)
+     /\ p.pat >= 4 => SeqProd([k \in 1..Len(InsOf(p.mask)) |-> InsOf(p.mask)[k][2]]) >= 12 /\ p.ns <= 1}
 Init == g \in Problems
 Next == UNCHANGED g
 Spec == Init /\ [][Next]_g
